@@ -93,14 +93,10 @@ def Version.tagsStr (v : Version) : Bytes :=
   | some t => t
   | none => []
 
-/-! ### byte-string helpers (`strings.Contains`, `strings.Split`) -/
+/-! ### byte-string helper (`strings.Split`) -/
 
-/-- `strings.Contains(s, pat)`. -/
-def containsSub (pat : Bytes) : Bytes → Bool
-  | [] => pat.isEmpty
-  | c :: cs => Bytes.hasPrefix (c :: cs) pat || containsSub pat cs
-
-/-- `strings.Split(s, string(sep))` for a one-byte separator: never empty; `""` gives `[""]`. -/
+/-- `strings.Split(s, string(sep))` for a one-byte separator: never empty; `""` gives `[""]`,
+consecutive (leading, trailing) separators give empty elements. -/
 def splitOn (sep : UInt8) : Bytes → List Bytes
   | [] => [[]]
   | c :: cs =>
@@ -171,8 +167,13 @@ def DV.isPre (d : DV) : Bool :=
   | some x => x.isPrerelease
   | none => false
 
-/-- `strings.Contains(tags, "latest")` — a substring test, as coded. -/
-def DV.hasLatest (d : DV) : Bool := containsSub latestBytes d.v.tagsStr
+/-- `slices.Contains(strings.Split(tags, ","), "latest")`: the record carries the dist-tag
+`latest`, i.e. one of the comma-separated tags is exactly `latest` (the repair of
+F-C12-latest-substr; the test used to be `strings.Contains(tags, "latest")`). -/
+def Version.exactLatest (v : Version) : Bool := (splitOn 44 v.tagsStr).contains latestBytes
+
+/-- The test of the loop of `sortNPMVersions`, on a decorated element. -/
+def DV.hasLatest (d : DV) : Bool := d.v.exactLatest
 
 /-- Splits at the LAST element satisfying `p` (the loop keeps overwriting `latestIdx`). -/
 def splitLast {α : Type} (p : α → Bool) : List α → Option (List α × α × List α)
@@ -182,7 +183,7 @@ def splitLast {α : Type} (p : α → Bool) : List α → Option (List α × α 
     | some (pre, y, post) => some (x :: pre, y, post)
     | none => if p x then some ([], x, xs) else none
 
-/-- Tail of `sortNPMVersions`: find the "latest", move it to the end unless it is a
+/-- Tail of `sortNPMVersions`: find the version tagged `latest`, move it to the end unless it is a
 pre-release and not everything is a pre-release. -/
 def moveLatest (ds : List DV) : List DV :=
   let allPrerelease := ds.all DV.isPre
@@ -260,10 +261,10 @@ def matchRequirement (req : VersionKey) (versions : List Version) : Outcome (Lis
 def matchReq (req : VersionKey) (versions : List Version) : Outcome (List Version) :=
   if req.pk.sys = .npm then matchNPMRequirement req versions else matchRequirement req versions
 
-/-! ### decidable hypotheses of the C12 partial theorems (correspondence op `classify`)
+/-! ### decidable hypothesis of the C12 partial theorems (correspondence op `classify`)
 
-Not part of match.go: these are the classifiers of the two finding classes, evaluated by
-the driver so that the harness's copies are tied to the predicates the theorems use. -/
+Not part of match.go: the classifier of the finding class F-C12-mvn-intrans, evaluated by
+the driver so that the harness's copy is tied to the predicate the theorems use. -/
 
 /-- `less` is a strict weak order on the decorated elements of the list whose ties have
 identical version strings (`Proofs.C12Order.orderLawfulB_iff`). -/
@@ -273,14 +274,5 @@ def orderLawfulB (s : Semver.System) (l : List Version) : Bool :=
     (!(less a b) || !(less b a)) &&
     (less a b || less b a || a.v.key.version == b.v.key.version) &&
     ds.all fun c => (less b a || less c b || !(less c a))
-
-/-- The record carries the dist-tag `latest` (one of the comma-separated tags). -/
-def Version.exactLatest (v : Version) : Bool := (splitOn 44 v.tagsStr).contains latestBytes
-
-/-- The test the code applies. -/
-def Version.codeLatest (v : Version) : Bool := containsSub latestBytes v.tagsStr
-
-/-- "latest" occurs in a tag string only as a whole tag. -/
-def tagsExactB (l : List Version) : Bool := l.all fun v => v.codeLatest == v.exactLatest
 
 end DepsDev.Resolve.Match
